@@ -121,13 +121,13 @@ func TestC16Write(t *testing.T) {
 			}
 		case "badname":
 			bad := rapid.SampledFrom([]string{
-				fmt.Sprintf("uploads/%s/blobs/%s", uuid, b.Hash),                       // no size
-				fmt.Sprintf("uploads/%s/blobs/%s/abc", uuid, b.Hash),                   // size not a number
-				fmt.Sprintf("uploads/%s/blobs/%s/-5", uuid, b.Hash),                    // negative
-				fmt.Sprintf("%s/blobs/%s/%d", uuid, b.Hash, b.Size),                    // no "uploads"
+				fmt.Sprintf("uploads/%s/blobs/%s", uuid, b.Hash),                            // no size
+				fmt.Sprintf("uploads/%s/blobs/%s/abc", uuid, b.Hash),                        // size not a number
+				fmt.Sprintf("uploads/%s/blobs/%s/-5", uuid, b.Hash),                         // negative
+				fmt.Sprintf("%s/blobs/%s/%d", uuid, b.Hash, b.Size),                         // no "uploads"
 				fmt.Sprintf("uploads/%s/compressed-blobs/gzip/%s/%d", uuid, b.Hash, b.Size), // unsupported compressor
-				fmt.Sprintf("uploads/%s/compressed-blobs/%s/%d", uuid, b.Hash, b.Size),  // compressor missing
-				fmt.Sprintf("uploads/%s/blobs/%s/%d", uuid, b.Hash[:40], b.Size),       // short hash
+				fmt.Sprintf("uploads/%s/compressed-blobs/%s/%d", uuid, b.Hash, b.Size),      // compressor missing
+				fmt.Sprintf("uploads/%s/blobs/%s/%d", uuid, b.Hash[:40], b.Size),            // short hash
 				fmt.Sprintf("uploads/%s/blobs/%s/%d", uuid, strings.ToUpper(b.Hash), b.Size),
 				fmt.Sprintf("uploads/%s/cas/%s/%d", uuid, b.Hash, b.Size),
 				"",
